@@ -54,6 +54,20 @@ def generate(seed, tier="quick"):
         for t in f["tests"]:
             t["name"] = f"test_{pool[i % len(pool)]}{i}"
             i += 1
+    # files of one project that use the same module-level names (helper functions, module-level snapshots) with different data:
+    # every file is a module of its own
+    krng = sub(seed, "samenames")
+    fs = sorted(prog["files"], key=lambda f: f["name"])
+    if len(fs) >= 2 and krng.random() < 0.5:
+        first = [(sid, s) for sid, s in fs[0]["sites"].items() if s["place"] in ("func", "lam", "module")]
+        for f in fs[1:]:
+            pool_ = list(first)
+            for sid, s in f["sites"].items():
+                if s["place"] in ("func", "lam", "module") and pool_:
+                    cand = [x for x in pool_ if x[1]["place"] == s["place"]] or pool_
+                    pick = cand[0]
+                    pool_.remove(pick)
+                    s["name"] = pick[1].get("name", pick[0])
     # a test marked xfail that uses no snapshot (it passes: XPASS, non-strict): all three drivers still have to agree on the other tests
     xr = sub(seed, "xfail")
     if xr.random() < 0.25:
